@@ -172,6 +172,15 @@ def judge_load(ctx, li, data, region, detail, acc, case, fault_kind, keyregion=N
     base = ctx.base(li)
     ctx.write(data)
     acc.enter(case)
+    # On the lazy read paths the items of skipped tables / of the skipped reference sequence are never
+    # looked at (that is what "skip" means); only the container-level packing checks apply to them.
+    skipped_item = False
+    if detail and fault_kind != "prefix":
+        item = str(detail).split("+")[0]
+        if kw.get("skip_tables") and item.split("/")[0] in TABLE_PREFIXES:
+            skipped_item = True
+        if kw.get("skip_reference_sequence") and item.startswith("reference_sequence/"):
+            skipped_item = True
     # which store does the fault hit?
     hit = case.get("store", 0)
     outcome = "same"
@@ -201,7 +210,9 @@ def judge_load(ctx, li, data, region, detail, acc, case, fault_kind, keyregion=N
                 break
             same = tcs.equals(base[si])
             if same:
-                if region in STRICT_REGIONS:
+                if region in STRICT_REGIONS and skipped_item:
+                    acc.count("dontcare_fault_in_skipped_item_accepted")
+                elif region in STRICT_REGIONS:
                     # these bytes are not reserved by the format: a changed value must be refused even
                     # when the object that comes out happens to equal the original
                     outcome = "accepted-equal"
@@ -236,6 +247,8 @@ def judge_load(ctx, li, data, region, detail, acc, case, fault_kind, keyregion=N
     return outcome
 
 
+TABLE_PREFIXES = {"nodes", "edges", "sites", "mutations", "migrations", "individuals", "populations", "provenances",
+                  "indexes"}
 STRICT_REGIONS = {"header.magic", "header.version_major", "header.num_items", "header.file_size", "desc.type",
                   "desc.key_start", "desc.key_len", "desc.array_start", "desc.array_len", "key"}
 ALPHABET_QUICK = [("flip", b) for b in range(8)] + [("set", 0), ("set", 255), ("add", 1), ("add", -1)]
